@@ -558,6 +558,8 @@ func (c *CaseC10) Eval(ob *Obs) []Finding {
 	tw.Files[fi].Plan = ReadPlan{Chunk: c.Chunk, ChunkSeed: c.ChunkSeed, MaxChunk: c.MaxChunk, ZeroReads: c.ZeroReads, FaultAt: -1}
 	if c.StatZero {
 		tw.Files[fi].StatSize = new(int64)
+		ob.planned("stat_size_zero")
+		ob.fired("stat_size_zero")
 	}
 	twin := ob.run(tw)
 	if twin.Stdout != base.Stdout || twin.Failed != base.Failed {
